@@ -268,7 +268,13 @@ class Documentable:
         # invariants assumed by various bits of pydoctor
         # and that are of course not written down anywhere
         # :/
+        # Older definitions superseded inside this object are registered below its name
+        # but are in no 'contents' anymore: they must follow the object as well.
+        prefix = self.fullName() + '.'
+        below = [(k, o) for k, o in self.system.allobjects.items() if k.startswith(prefix)]
         self._handle_reparenting_pre()
+        for k, _ in below:
+            self.system.allobjects.pop(k, None)
         old_parent = self.parent
         assert isinstance(old_parent, CanContainImportsDocumentable)
         old_name = self.name
@@ -284,6 +290,8 @@ class Documentable:
         old_parent._localNameToFullName_map[old_name] = self.fullName()
         new_parent.contents[new_name] = self
         self._handle_reparenting_post()
+        for _, o in below:
+            self.system.allobjects[o.fullName()] = o
 
     def _handle_reparenting_pre(self) -> None:
         del self.system.allobjects[self.fullName()]
